@@ -48,13 +48,19 @@ let parse_out (tok : string) : out =
    result = LBuildDone, a termination = LTermActor, before which the root is advanced: it takes the entries addressed to it in
    the RECORDED relay order (LRootAt), leaves its loop when it can (LRootIdle), and when it can do neither the run was ended by
    the harness (LSignal, LRootSignal).  Every label must be enabled; the status `run` returned must be the model's. *)
-let replay_global (watch : bool) (g : graph) (roots : n list) (ev_all : string list) (obs_all : string list) (status : string) :
-    string option =
+let replay_global (watch : bool) (g : graph) (roots : n list) (ev_all : string list) (obs_all : string list) (status : string)
+    (consumed : int) : string option =
   let s = ref (init_sys g roots) in
   let err = ref None in
   let fail m = if !err = None then err := Some m in
   let step what l = match exec late_ack watch !s l with Some s1 -> s := s1; true | None -> fail (what ^ ": the model refuses this step"); false in
-  let root_feed = ref (List.filter (fun tok -> dest_of tok = Some "R" || (String.length tok > 4 && String.sub tok 0 4 = "ERR:")) obs_all) in
+  (* what the root loop took for itself: the entries addressed to it among the first [consumed] logged outputs *)
+  let root_feed =
+    ref
+      (List.filter
+         (fun tok -> dest_of tok = Some "R" || (String.length tok > 4 && String.sub tok 0 4 = "ERR:"))
+         (List.filteri (fun i _ -> i < consumed) obs_all))
+  in
   let signalled = ref false in
   (* advance the root until the termination message for t is out (or nothing more can be done) *)
   let advance_root () =
@@ -121,7 +127,13 @@ let run (cases : string) : unit =
   List.iter
     (fun line ->
       match split_sp line with
-      | [ "V"; id; watch; roots; targets; _failing; _rounds; status; e; o ] ->
+      | "V" :: id :: watch :: roots :: targets :: _failing :: _rounds :: rest when List.length rest = 4 || List.length rest = 5 ->
+          let status, consumed, e, o =
+            match rest with
+            | [ st; c; e; o ] -> (st, int_of_string c, e, o)
+            | [ _term; st; c; e; o ] -> (st, int_of_string c, e, o)
+            | _ -> failwith "bad case"
+          in
           let roots = ids ',' roots in
           let ev_all = if e = "-" then [] else String.split_on_char ';' e in
           let obs_all = if o = "-" then [] else String.split_on_char ';' o in
@@ -202,7 +214,7 @@ let run (cases : string) : unit =
             specs;
           (* (3) the whole run as one execution of the system model *)
           (match
-             replay_global (watch = "1") (graph_of_list (List.map (fun (x, k, d) -> (x, (k, d))) specs)) roots ev_all obs_all status
+             replay_global (watch = "1") (graph_of_list (List.map (fun (x, k, d) -> (x, (k, d))) specs)) roots ev_all obs_all status consumed
            with
            | Some m -> problems := ("system: " ^ m) :: !problems
            | None -> ());
